@@ -174,22 +174,22 @@ CHECKS["C06"] = {
     "pkg": "./core/dutydb",
     "parallel": 8,
     "quick": [
-        {"harness": "VerifC06Att", "params": {"k": 3, "ops": _c06_patterns(3), "rev": 0}},
-        {"harness": "VerifC06Att", "params": {"k": 4, "ops": [30, 33, 19, 27], "rev": 0}},
-        {"harness": "VerifC06Att", "params": {"k": 3, "ops": [0, 3, 9, 18], "rev": 1}, "reversemaps": True},
+        {"harness": "VerifC06Att", "params": {"k": 3, "ops": _c06_patterns(3), "rev": 0, "cont": 1}},
+        {"harness": "VerifC06Att", "params": {"k": 4, "ops": [30, 33, 19, 27], "rev": 0, "cont": 1}},
+        {"harness": "VerifC06Att", "params": {"k": 3, "ops": [0, 3, 9, 18], "rev": 1, "cont": 1}, "reversemaps": True},
         {"harness": "VerifC06Await", "params": {}},
     ],
     "thorough": [
-        {"harness": "VerifC06Att", "params": {"k": 4, "ops": _c06_patterns(4), "rev": 0}, "timeout_ms": 300000},
-        {"harness": "VerifC06Att", "params": {"k": 4, "ops": _c06_patterns(4, range(0, 81, 3)), "rev": 1}, "reversemaps": True, "timeout_ms": 300000},
-        {"harness": "VerifC06Att", "params": {"k": 5, "ops": [90, 99, 57, 81, 84, 111, 120], "rev": 0}, "timeout_ms": 300000},
+        {"harness": "VerifC06Att", "params": {"k": 4, "ops": _c06_patterns(4), "rev": 0, "cont": 1}, "timeout_ms": 300000},
+        {"harness": "VerifC06Att", "params": {"k": 4, "ops": _c06_patterns(4, range(0, 81, 3)), "rev": 1, "cont": 1}, "reversemaps": True, "timeout_ms": 300000},
+        {"harness": "VerifC06Att", "params": {"k": 5, "ops": [90, 99, 57, 81, 84, 111, 120], "rev": 0, "cont": 1}, "timeout_ms": 300000},
         {"harness": "VerifC06Await", "params": {}, "cross": True},
     ],
     "bounds": {
         "quick": "attester duties: every sequence of k=3 operations (Store of a two-entry set / registration of a blocking query / expiry of a slot; 27 kind patterns, plus 4 patterns of length 4) over 2 slots x 3 committee indices x 2 validator indices, with slot, committee, validator, head, source and target symbolic; both map iteration orders for the two-entry sets on selected patterns; the real AwaitAttestation immediate and blocked-then-woken; expired duty refused",
         "thorough": "all 81 kind patterns of length 4, selected patterns of length 5",
     },
-    "outside": "proposal, aggregate-attestation and sync-contribution stores (their versioned go-eth2-client types are not encoded; the clash logic has the same shape); histories continuing after a failed multi-entry store; cancellation of queries; real SSZ/JSON (Clone = structural deep copy, String()/HashTreeRoot() = ideal injective functions of all fields); arbitrary pre-emption (one mutex: sequences of whole critical sections)",
+    "outside": "proposal, aggregate-attestation and sync-contribution stores (their versioned go-eth2-client types are not encoded; the clash logic has the same shape); cancellation of queries; real SSZ/JSON (Clone = structural deep copy, String()/HashTreeRoot() = ideal injective functions of all fields); arbitrary pre-emption (one mutex: sequences of whole critical sections)",
     "assumptions": [
         "core data Clone() is a structural deep copy; go-eth2-client String() and HashTreeRoot() are injective functions of the full field tuple",
         "blocking queries are registered exactly as AwaitAttestation does (append + resolve under the lock) and observed through their response channels",
@@ -386,19 +386,23 @@ CHECKS["C19"] = {
     "parallel": 8,
     "replay_tries": 12,
     "quick": [
-        {"harness": "VerifC19Provide", "params": {"np": 2, "nf": [0, 1], "perm": [0, 2], "code": [502, 404]}, "redirects": _C19R},
-        {"harness": "VerifC19Provide", "params": {"np": 3, "nf": 2, "perm": [0, 3, 5], "code": 503}, "redirects": _C19R},
+        {"harness": "VerifC19Provide", "params": {"np": 2, "nf": [0, 1], "perm": [0, 2], "code": [502, 404], "cancel": 0}, "redirects": _C19R},
+        {"harness": "VerifC19Provide", "params": {"np": 3, "nf": 2, "perm": [0, 3, 5], "code": 503, "cancel": 0}, "redirects": _C19R},
+        {"harness": "VerifC19Provide", "params": {"np": 1, "nf": [2, 3], "perm": [0, 5], "code": 503, "cancel": 0}, "redirects": _C19R},
+        {"harness": "VerifC19Provide", "params": {"np": [1, 2], "nf": [0, 2], "perm": 2, "code": 503, "cancel": 1}, "redirects": _C19R},
     ],
     "thorough": [
-        {"harness": "VerifC19Provide", "params": {"np": [1, 2, 3], "nf": [0, 1, 2, 3], "perm": [0, 1, 2, 3, 4, 5], "code": [502, 503, 504, 404, 500]}, "redirects": _C19R},
+        {"harness": "VerifC19Provide", "params": {"np": [1, 2, 3], "nf": [0, 1, 2, 3], "perm": [0, 1, 2, 3, 4, 5], "code": [502, 503, 504, 404, 500], "cancel": 0}, "redirects": _C19R},
+        {"harness": "VerifC19Provide", "params": {"np": [1, 2, 3], "nf": [0, 1, 2, 3], "perm": [0, 3, 5], "code": 503, "cancel": 1}, "redirects": _C19R},
     ],
     "bounds": {
-        "quick": "provide-style calls: 2-3 primary and 0-2 fallback nodes; per-node outcome symbolic among success / plain error / timeout-class / syncing / http gateway status / connection refused (status code concrete per case); completion order concrete per case",
+        "quick": "provide-style calls: 1-3 primary and 0-3 fallback nodes; per-node outcome symbolic among success / plain error / timeout-class message / syncing / http gateway status / connection refused / the node's own request deadline (wrapped context.DeadlineExceeded) / hangs for ever (status code concrete per case); selected completion orders; worker count and fail-fast setting taken from the options provide() really passes to forkjoin.New; one scenario with the caller's context cancelled while requests are in flight (must return the context error without blocking); a hung node must not keep the call from returning another node's success (blocking VC on the result loop)",
         "thorough": "1-3 primaries, 0-3 fallbacks, all six completion orders, five status codes",
     },
-    "outside": "the concurrency of forkjoin itself (workers, WaitGroup, context trees): replaced by an ideal fork-join delivering results in completion order, so 'does not wait for slower or hung nodes' and 'returns promptly on cancellation' are NOT claimed beyond 'returns at the first success without consuming later results'; submit-style calls (a thin wrapper over provide); the success predicate hook (nil here)",
+    "outside": "the concurrency inside forkjoin itself (goroutines, WaitGroup, context trees, unbuffered result channel): replaced by the ideal fork-join described under assumptions, so 'does not wait for hung nodes' is claimed for provide()'s use of forkjoin (worker count, fail-fast option, result loop), not for forkjoin's implementation; slow-but-finite nodes are the completion orders; cancellation at other points than 'while requests are in flight'; submit-style calls (a thin wrapper over provide); the success predicate hook (nil here)",
     "assumptions": [
-        "forkjoin.New is replaced by an ideal fork-join: every forked input is worked, results arrive in the given completion order, then the channel is closed",
+        "forkjoin.New is replaced by an ideal fork-join that honours the worker-count and fail-fast options passed to it: inputs start in FIFO order while a worker is free (a hung node keeps its worker), results of the started non-hung inputs arrive in the given completion order, the channel closes when all delivered, stays open while an input is outstanding, and outstanding inputs deliver the context error once the caller's context is cancelled",
+        "in scenarios without cancellation every node group that contains a hung node also contains a node that answers successfully (otherwise the call legitimately waits for the caller's context)",
         "node errors are the error values the repository itself produces for each class (message-based timeout/syncing classes, *eth2api.Error status codes, syscall.ECONNREFUSED)",
     ],
 }
@@ -408,7 +412,7 @@ _C15N = ["github.com/obolnetwork/charon/core/scheduler.logResolvedDuties"]
 def _c15(cases, **kw):
     out = []
     for (slots, act, nfail) in cases:
-        g = {"harness": "VerifC15Sched", "params": {"slots": slots, "act": act, "nfail": nfail, "opaque_pubkeys": 1}, "noops": _C15N, "prune": 1000, "timeout_ms": 600000, "case_timeout_s": 5000}
+        g = {"harness": "VerifC15Sched", "params": {"slots": slots, "act": act, "nfail": nfail, "sync": 1, "opaque_pubkeys": 1}, "noops": _C15N, "prune": 1000, "timeout_ms": 600000, "case_timeout_s": 5000}
         g.update(kw)
         out.append(g)
     return out
@@ -418,13 +422,14 @@ CHECKS["C15"] = {
     "parallel": 4,
     # slots: bitmask of the scheduled slots (2 slots per epoch; unset bits are missed ticks); act: bitmask of active validators;
     # nfail: how many of the first duty-resolution calls may fail (symbolically)
-    "quick": _c15([(3, 3, 0), (5, 1, 2), (3, 2, 2), (5, 3, 0)]),
-    "thorough": _c15([(3, a, f) for a in (0, 1, 2, 3) for f in (0, 2)] + [(5, a, f) for a in (1, 3) for f in (0, 2)] + [(6, 3, 0), (6, 1, 2), (7, 3, 0), (10, 3, 2)]),
+    "quick": _c15([(3, 3, 0), (5, 1, 2), (3, 2, 2), (5, 3, 0), (6, 3, 0)]) + [{"harness": "VerifC15Ticker", "params": {"k": [2, 3, 4]}}],
+    "thorough": _c15([(3, a, f) for a in (0, 1, 2, 3) for f in (0, 2)] + [(5, a, f) for a in (1, 3) for f in (0, 2)] + [(6, 3, 0), (6, 1, 2), (7, 3, 0), (7, 3, 2), (10, 3, 2)])
+                + [{"harness": "VerifC15Ticker", "params": {"k": [2, 3, 4, 5, 6, 8]}, "timeout_ms": 300000}],
     "bounds": {
-        "quick": "2 cluster validators + 1 foreign validator, 2 slots per epoch; slot sequences 0,1 and 0,2 (missed tick); proposer and attester assignment per slot symbolic (none / validator 0 / 1 / foreign), validator status concrete per case with a symbolic activation epoch, up to 2 symbolically failing resolution calls; proposer, attester and aggregator duties",
-        "thorough": "also sequences crossing an epoch boundary (1,2 | 0,1,2 | 1,3)",
+        "quick": "scheduleSlot level: 2 cluster validators + 1 foreign validator, 2 slots per epoch; slot sequences 0,1 | 0,2 (missed tick) | 1,2 (start in mid-epoch, crossing an epoch boundary); proposer and attester assignment per slot and sync-committee membership per epoch symbolic (none / validator 0 / 1 / foreign), validator status concrete per case with symbolic activation epoch, up to 2 symbolically failing resolution calls plus a failing validator lookup; obligations per (slot, duty type): triggered at most once, only in its own slot, definition = the beacon node's assignment for a cluster validator that is active, offset 1/3 (attester) or 2/3 (aggregator, sync contribution) of the slot requested exactly once before the trigger, and with no failing call every assignment of a scheduled slot is triggered. Ticker level: the real newSlotTicker goroutine with a harness clock, symbolic start instant within the first 4 slots, k<=4 timer wake-ups each symbolically late by 0..4 slot durations: no slot ticked before its start, none twice, in increasing order, with its own start time",
+        "thorough": "also sequences 0,1,2 with and without failures and 1,3; ticker with up to 8 wake-ups",
     },
-    "outside": "sync-committee duties (the stub beacon node returns none), builder registrations, head-event early fetch and the FetchAttOnBlock feature flags (default off), the slot ticker goroutine (newSlotTicker) and real time: scheduleSlot is called directly with a concrete slot sequence, duty goroutines run to completion at the spawn point, the delay function is a harness recorder; more than 2 slots per epoch / 2 validators; longer sequences (3 slots take ~10 minutes and are thorough-only)",
+    "outside": "builder registrations, head-event early fetch and the FetchAttOnBlock feature flags (default off), reorg-triggered re-resolution, the composition of the ticker with scheduleSlot through Run (each side is checked against the interface between them: a core.Slot delivered not before its start, in increasing order), more than 2 slots per epoch / 2 cluster validators, slot duration other than 2^33 ns in the ticker harness (a power of two keeps the solver's division cheap), real time",
     "assumptions": [
         "the beacon node is a harness implementation of CompleteValidators / ProposerDutiesCache / AttesterDutiesCache / SyncCommDutiesCache over a symbolic assignment table (it also offers the foreign validator's duties)",
         "core.PubKeyFrom48Bytes / PubKeyFromBytes = opaque injective strings of the 48 key bytes; tracing/logging/metrics no-ops; goroutines run synchronously",
